@@ -3,6 +3,7 @@ package keeper
 import (
 	"context"
 
+	modeltypes "github.com/SaoNetwork/sao/x/model/types"
 	"github.com/SaoNetwork/sao/x/sao/types"
 	sdk "github.com/cosmos/cosmos-sdk/types"
 	sdkerrors "github.com/cosmos/cosmos-sdk/types/errors"
@@ -60,6 +61,13 @@ func (k msgServer) Terminate(goCtx context.Context, msg *types.MsgTerminate) (*t
 		if !isValid {
 			return nil, sdkerrors.Wrap(types.ErrorNoPermission, "No permission to delete the model")
 		}
+	}
+
+	if meta.Status != modeltypes.MetaComplete {
+		// an order of this model is still in flight (first version, update or force-push);
+		// deleting the model now would leave that order, its shards and its payment behind,
+		// and its completion would later write into whatever model reuses the data id
+		return nil, sdkerrors.Wrapf(modeltypes.ErrInvalidStatus, "order %d of model %s is still in progress", meta.OrderId, meta.DataId)
 	}
 
 	shardSet := make(map[uint64]int)
